@@ -63,11 +63,11 @@ def run(ctx, out):
         jobs.append({"scn": scn, "script": script, "seed": ctx.seed, "test_mode": True, "qmax": 100, "fault": fault})
     beh = rc.behaviours(ctx, out, 100 if ctx.quick else 1000, 110, cfg="RaceDriver.c09.sim.cfg", seed_off=9, with_fault=True)
     for i, (scn, script, fault) in enumerate(beh):
-        jobs.append({"scn": scn, "script": script, "seed": ctx.seed + i, "test_mode": True, "qmax": 100, "fault": fault, "req_variant": ["conn_error", "api_error", "runner", "unsuccessful"][i % 4]})
+        jobs.append({"scn": scn, "script": script, "seed": ctx.seed + i, "test_mode": True, "qmax": 100, "fault": fault, "req_variant": ["conn_error", "api_error", "runner", "unsuccessful", "conn_error_retried"][i % 5]})
     # generated scenario family (racecommon.gen_scenarios) with one fault per behaviour
     gbeh, ngen = rc.behaviours_gen(ctx, out, 30 if ctx.quick else 400, 30 if ctx.quick else 400, 110, seed_off=19, base_cfg="RaceDriver.c09.sim.cfg", with_fault=True)
     for i, (scn, script, fault) in enumerate(gbeh):
-        jobs.append({"scn": scn, "script": script, "seed": ctx.seed + 8000 + i, "test_mode": True, "qmax": 100, "fault": fault, "req_variant": ["conn_error", "api_error", "runner", "unsuccessful"][i % 4]})
+        jobs.append({"scn": scn, "script": script, "seed": ctx.seed + 8000 + i, "test_mode": True, "qmax": 100, "fault": fault, "req_variant": ["conn_error", "api_error", "runner", "unsuccessful", "conn_error_retried"][i % 5]})
     out.extra["generated_scenarios"] = ngen
     scns = []
     seen = set()
@@ -82,7 +82,7 @@ def run(ctx, out):
     for i, scn in enumerate(scns):
         for kind in KINDS:
             for k in range(reps):
-                jobs.append({"scn": scn, "script": [], "seed": ctx.seed + 3000 + 97 * i + 7 * k + KINDS.index(kind), "test_mode": True, "qmax": 100, "fault": kind, "req_variant": ["conn_error", "api_error", "runner", "unsuccessful"][(i + k) % 4], "fault_delay": rnd.randint(4, 70)})
+                jobs.append({"scn": scn, "script": [], "seed": ctx.seed + 3000 + 97 * i + 7 * k + KINDS.index(kind), "test_mode": True, "qmax": 100, "fault": kind, "req_variant": ["conn_error", "api_error", "runner", "unsuccessful", "conn_error_retried"][(i + k) % 5], "fault_delay": rnd.randint(4, 70)})
     # directed: a lenient and a strict task in ONE executor (same worker, same parallel element); the strict task's request fails
     def _t(i, clients, reqs, cp=False):
         return {"id": i, "clients": clients, "reqs": reqs, "cp": cp, "acp": False}
@@ -101,7 +101,7 @@ def run(ctx, out):
     # still be reported within a wake-up interval, not when the siblings are done
     for i, scn in enumerate(shared):
         for k in range(4):
-            jobs.append({"scn": scn, "script": [], "seed": ctx.seed + 9300 + 10 * i + k, "test_mode": True, "qmax": 100, "fault": "req", "req_variant": ["conn_error", "runner"][k % 2], "fault_delay": 6 + 4 * k})
+            jobs.append({"scn": scn, "script": [], "seed": ctx.seed + 9300 + 10 * i + k, "test_mode": True, "qmax": 100, "fault": "req", "req_variant": ["conn_error", "runner", "conn_error_retried", "conn_error"][k % 4], "fault_delay": 6 + 4 * k})
     # tasks that declare ignore-response-error-level: non-fatal next to strict ones: in every parallel element with >= 2 tasks the
     # FIRST task is lenient in half of the races (a non-fatal request error is then injected only into the strict tasks, where
     # on-error=abort must still fail the race)
